@@ -1,0 +1,57 @@
+//go:build verif
+
+package reporter
+
+import (
+	"github.com/google/go-github/v71/github"
+
+	"github.com/cloudflare/pint/internal/checks"
+)
+
+// VerifPendingFields exposes the fields of a PendingComment.
+func VerifPendingFields(p PendingComment) (path, text string, line int, anchor checks.Anchor) {
+	return p.path, p.text, p.line, p.anchor
+}
+
+// VerifNewPending builds a PendingComment.
+func VerifNewPending(path, text string, line int, anchor checks.Anchor) PendingComment {
+	return PendingComment{path: path, text: text, line: line, anchor: anchor}
+}
+
+// VerifNewExisting builds an ExistingComment, as a platform would return it.
+func VerifNewExisting(path, text string, line int, meta any) ExistingComment {
+	return ExistingComment{path: path, text: text, line: line, meta: meta}
+}
+
+// VerifExistingFields exposes the fields of an ExistingComment.
+func VerifExistingFields(e ExistingComment) (path, text string, line int, meta any) {
+	return e.path, e.text, e.line, e.meta
+}
+
+// VerifMakeComments exposes makeComments.
+func VerifMakeComments(summary Summary, showDuplicates bool) []PendingComment {
+	return makeComments(summary, showDuplicates)
+}
+
+// VerifGithubDst builds the destination value GithubReporter works with from path -> unified diff patch.
+func VerifGithubDst(patches map[string]string) any {
+	var pr ghPR
+	for path, patch := range patches {
+		pr.files = append(pr.files, &github.CommitFile{Filename: github.Ptr(path), Patch: github.Ptr(patch)})
+	}
+	return pr
+}
+
+// VerifGithubFixLine exposes GithubReporter.fixCommentLine.
+func VerifGithubFixLine(gr GithubReporter, dst any, p PendingComment) (string, int) {
+	return gr.fixCommentLine(dst, p)
+}
+
+// VerifGithubHasDiff reports whether GithubReporter.Create would post a comment for this path.
+func VerifGithubHasDiff(dst any, path string) bool {
+	file := dst.(ghPR).getFile(path)
+	if file == nil {
+		return false
+	}
+	return len(parseDiffLines(file.GetPatch())) > 0
+}
